@@ -468,6 +468,17 @@ pub fn check(case: &Case, idx: u64, acc: &mut Acc) {
                 acc.bump(&format!("row swap at column {}", c));
             }
             let x = run_system(&sys, false, false, case, &format!("permuted{}", n), idx, acc);
+            // the same system with rows scaled by widely different factors (changes every pivot decision and
+            // the magnitudes met during elimination, not the solution)
+            let scl = [1e6, 1.0, 1e-6, 3e3, 1e-3, 7e7, 2e-8, 1.0];
+            let scaled = Sys { a: sys.a.iter().enumerate().map(|(i, r)| r.iter().map(|v| v * scl[i % 8]).collect()).collect(), b: sys.b.iter().enumerate().map(|(i, v)| v * scl[i % 8]).collect() };
+            let xs = run_system(&scaled, false, false, case, &format!("row-scaled{}", n), idx, acc);
+            if let (Some(x), Some(xs)) = (&x, &xs) {
+                let m = x.iter().fold(0.0_f64, |m, v| m.max(v.abs()));
+                if x.iter().zip(xs.iter()).any(|(p, q)| !close_scaled(*p, *q, 1e-8, m)) {
+                    acc.violate(&format!("row-scaled{}/row-scaling-changes-answer", n), idx, serde_json::to_value(case).unwrap(), json!(x), json!(xs));
+                }
+            }
             // row order does not change the answer
             if let (Some(x), Some(inv)) = (x, inverse(&base.a)) {
                 let x0: Vec<f64> = (0..*n).map(|i| (0..*n).map(|j| inv[i][j] * base.b[j]).sum()).collect();
@@ -582,7 +593,7 @@ pub fn run(ctx: &Ctx, replay_file: Option<String>) -> ! {
          array); 2x2 / 3x3 patterns are repeated with one non-zero entry scaled to 1e-11 (tiny pivots). Oracle: the residual \
          A x - b (A^T A x - A^T b for least squares) recomputed in a dense reference arithmetic vanishes in value, every \
          first and every second derivative component, each against its own scale sum |A||x| + |b|; the solution of a \
-         row-permuted system equals that of the unpermuted one. Non-trivial: systems in which reference partial \
+         row-permuted system equals that of the unpermuted one, also when its rows are scaled by factors from 2e-8 to 7e7. Non-trivial: systems in which reference partial \
          pivoting swaps rows (per-column counts reported; every column must be a swap site).",
         json!({"cases": cs.len()}),
     )
